@@ -55,4 +55,21 @@ func init() {
 	mutant("C10", "header-buffer-not-reset", "C10.R5", relay, "\t\t\tr.headerBuffer.Reset()\n\t\t\tr.headerBuffer.Write(f.HeaderBlockFragment())\n\t\t\tr.continuationState = &pushPromiseContinuation{f.PromiseID}", "\t\t\tr.headerBuffer.Write(f.HeaderBlockFragment())\n\t\t\tr.continuationState = &pushPromiseContinuation{f.PromiseID}")
 	mutant("C10", "ping-ack-lost", "C10.R6", relay, "err = r.dest.WritePing(f.IsAck(), f.Data)", "err = r.dest.WritePing(false, f.Data)")
 	mutant("C10", "settings-filtered", "C10.R6", relay, "\t\t\t\tcase http2.SettingMaxFrameSize:\n\t\t\t\t\tr.peer.updateMaxFrameSize(s.Val)\n", "\t\t\t\tcase http2.SettingMaxFrameSize:\n\t\t\t\t\tr.peer.updateMaxFrameSize(s.Val)\n\t\t\t\t\treturn nil\n")
+
+	// ---- C08
+	const ppn = "proxyproto/net.go"
+	mutant("C08", "unfix-nil-source", "C08.R1", ppn, "c.header.IsLocal || c.header.Source == nil {", "c.header.IsLocal {")
+	mutant("C08", "unfix-tcp6-overread", "C08.R5", "proxyproto/v1.go", "io.ReadFull(r, buf[13:22])", "io.ReadFull(r, buf[13:24])").and("proxyproto/v1.go", "bytes.Equal(buf[20:22], []byte(cRLF))", "bytes.Equal(buf[22:24], []byte(cRLF))").and("proxyproto/v1.go", "return parseV1Header(buf[0:20])", "return parseV1Header(buf[0:22])").and("proxyproto/v1.go", "idx = 22", "idx = 24")
+	mutant("C08", "remote-returns-destination", "C08.R1", ppn, "\treturn c.header.Source\n", "\treturn c.header.Destination\n")
+	mutant("C08", "write-before-header", "C08.R2", ppn, "func (c *Conn) Write(b []byte) (n int, err error) {\n\tif err := c.readHeader(); err != nil {\n\t\treturn 0, err\n\t}\n", "func (c *Conn) Write(b []byte) (n int, err error) {\n")
+	mutant("C08", "accept-drops-timeout", "C08.R2", ppn, "\t\treadHeaderTimeout: l.ReadHeaderTimeout,\n", "")
+	mutant("C08", "publish-before-store", "C08.R3", ppn, "\tselect {\n\tcase <-ctx.Done():", "\tc.isHeaderRead.Store(true)\n\tselect {\n\tcase <-ctx.Done():")
+	mutant("C08", "no-recheck-under-lock", "C08.R3", ppn, "\tdefer c.headerMu.Unlock()\n\n\tif c.isHeaderRead.Load() {\n\t\treturn c.headerErr\n\t}\n", "\tdefer c.headerMu.Unlock()\n")
+	mutant("C08", "timeout-arm-keeps-conn", "C08.R4", ppn, "\tcase <-ctx.Done():\n\t\tc.Conn.Close()\n", "\tcase <-ctx.Done():\n")
+	mutant("C08", "timeout-ignored", "C08.R4", ppn, "if c.readHeaderTimeout > 0 {", "if c.readHeaderTimeout < 0 {")
+	mutant("C08", "v2-cap-removed", "C08.R5", "proxyproto/v2.go", "if length > 2048 {", "if length > 20480 {")
+	mutant("C08", "v1-scan-two-bytes", "C08.R5", "proxyproto/v1.go", "c, err := r.Read(buf[idx : idx+1])", "c, err := r.Read(buf[idx : idx+2])")
+	mutant("C08", "v1-ports-swapped", "C08.R6", "proxyproto/v1.go", "\t\t\tsrc.Port = port\n", "\t\t\tdest.Port = port\n").and("proxyproto/v1.go", "\t\t\tdest.Port = port\n\t\t\tdone = true", "\t\t\tsrc.Port = port\n\t\t\tdone = true")
+	mutant("C08", "v2-ipv6-offsets", "C08.R6", "proxyproto/v2.go", "dest.IP = tr[16:32]", "dest.IP = tr[16:33]")
+	mutant("C08", "v2-udp-swapped", "C08.R6", "proxyproto/v2.go", "\t\t\t\th.Destination = &net.UDPAddr{IP: dest.IP, Port: dest.Port}\n\t\t\t\th.Source = &net.UDPAddr{IP: src.IP, Port: src.Port}\n\t\t\t} else { // TCP\n\t\t\t\th.Destination = &dest\n\t\t\t\th.Source = &src\n\t\t\t}\n\t\t\toffset = ipv4AddressLen", "\t\t\t\th.Destination = &net.UDPAddr{IP: src.IP, Port: src.Port}\n\t\t\t\th.Source = &net.UDPAddr{IP: dest.IP, Port: dest.Port}\n\t\t\t} else { // TCP\n\t\t\t\th.Destination = &dest\n\t\t\t\th.Source = &src\n\t\t\t}\n\t\t\toffset = ipv4AddressLen")
 }
